@@ -5,12 +5,14 @@ spec/StoreCrash.tla: Store.tla + a medium with a volatile write cache; an operat
   unsynced writes; recovery takes the newest commit slot whose pages survived.
   MC:  CrashSafe (every crash image recovers to the state after the acknowledged operations or
        after the one in flight, indexes consistent) holds for the design (one transaction per
-       operation, durable commits) and TLC refutes it for the two design mutants
-       (MC_StoreCrash_split.cfg, MC_StoreCrash_nodur.cfg).
+       operation whatever its size, durable commits) and TLC refutes it for the three design mutants
+       (MC_StoreCrash_split.cfg, MC_StoreCrash_nodur.cfg, MC_StoreCrash_chunk.cfg = a long insert
+       committed in parts).
   <-B: h-redb runs seeded operation histories on a real RedbStore over a journaling
        redb::StorageBackend, materialises the image at every journal boundary (synced only / all /
-       random subsets of the unsynced writes), reopens it with RedbStore::new and logs the
-       projection; Trace_StoreCrash accepts a recovered event only if StoreCrash!RecoveredOK holds.
+       subsets of the unsynced writes), reopens it with RedbStore::new and logs the projection;
+       besides the short histories there are long-chain ones (run ids from 1000) whose inserts carry
+       257..1025 headers per call, so that every boundary inside a big operation is a crash point; Trace_StoreCrash accepts a recovered event only if StoreCrash!RecoveredOK holds.
 """
 import json
 import re
@@ -24,8 +26,10 @@ ENTRIES = {
                 "copy-on-write transactions, recovery by newest valid commit slot); TLC proves CrashSafe - after a "
                 "crash keeping any subset of the unsynced writes the reopened store equals the state after the "
                 "acknowledged operations or after the in-flight one, with header/hash/range/metadata tables "
-                "consistent - for one durable transaction per operation and refutes it for split or non-durable "
-                "commits. Seeded histories (inserts incl. rejected ones, removals, marks, metadata updates) run on "
+                "consistent - for one durable transaction per operation whatever its size and refutes it for split, "
+                "non-durable or chunked (long insert committed in parts) designs. Seeded histories (inserts incl. "
+                "rejected ones, removals, marks, metadata updates; long-chain histories whose inserts carry 257..1025 "
+                "headers per call) run on "
                 "a real RedbStore over an in-memory redb::StorageBackend that journals every write/set_len/sync; "
                 "for every journal boundary after RedbStore::new returned, the images 'unsynced writes dropped', "
                 "'all kept' and seeded random subsets of whole unsynced writes are reopened through "
@@ -51,7 +55,7 @@ def params(ck):
 def big_params(ck):
     # long-chain histories (one trace each): runs, ops, chain length.  Their inserts carry 257..1025
     # headers per call; the first operation of each is such an insert.
-    return (2, 3, 1100) if ck.quick else (6, 8, 1100)
+    return (2, 3, 1100) if ck.quick else (5, 6, 1100)
 
 
 def validate(ck, trace, meta, tag="trace"):
@@ -159,10 +163,12 @@ def run(ck):
         if len(ck.violations) >= 40:
             break
     ck.cov["recorded"] = extra
-    if extra["state_changing_ops"] < chunks * runs * 2 or ck.cov["distinct_nontrivial"] < 50:
-        raise vf.ToolError("vacuity: the recorded histories contain too few crash points inside state-changing operations")
-    if extra["big_inserts_committed"] < bruns or extra["journal_entries_in_big_inserts"] < 100 * bruns:
-        raise vf.ToolError("vacuity: no crash points inside inserts of more than 256 headers")
+    if not ck.violations:  # the vacuity thresholds are for complete runs (the loop stops early on findings)
+        if extra["state_changing_ops"] < chunks * runs * 2 or ck.cov["distinct_nontrivial"] < 50:
+            raise vf.ToolError("vacuity: the recorded histories contain too few crash points inside "
+                               "state-changing operations")
+        if extra["big_inserts_committed"] < bruns or extra["journal_entries_in_big_inserts"] < 100 * bruns:
+            raise vf.ToolError("vacuity: no crash points inside inserts of more than 256 headers")
     ck.level = "model_checking"
     ck.cov["rule"] = ("one evaluation = one crash image (journal boundary x {synced, all, survivor subset}) reopened and "
                       "judged by Trace_StoreCrash; non-trivial = an operation that changes the state is in flight and "
@@ -171,6 +177,8 @@ def run(ck):
     ck.assumptions += ["crashes lose whole backend writes only (no torn writes), as in the property's quantifier",
                        "crash points start after RedbStore::new returned on the fresh database",
                        "an eventual sync is a write barrier, not a durability point",
+                       "a file-size change survives whenever a later backend call survives (it is not one of the "
+                       "'whole writes' the statement lets a crash lose); images violating this are drift only",
                        "redb's own recovery is part of what is exercised, its commit protocol is abstracted in the model"]
 
 
